@@ -118,9 +118,14 @@ func (p *Prog) FileNames() []string {
 // LineOf returns the 1-based line of the first occurrence of needle in the (unsubstituted) source.
 // Hole alternatives never contain newlines, so the line is independent of hole values.
 func LineOf(src, needle string) int {
-	i := strings.Index(src, needle)
+	i := -1
+	if strings.Count(src, needle+"\n") == 1 {
+		i = strings.Index(src, needle+"\n")
+	} else if strings.Count(src, needle) == 1 {
+		i = strings.Index(src, needle)
+	}
 	if i < 0 {
-		panic("LineOf: needle not found: " + needle)
+		panic("LineOf: needle not found or not unique: " + needle)
 	}
 	return 1 + strings.Count(src[:i], "\n")
 }
